@@ -354,8 +354,17 @@ impl Sink {
                     "C05" if f.msg.contains("cut short by a panic") => kept.push(f),
                     "C02" if f.msg.contains("recorded sizes") => {
                         kept.push(monitors::Fail { prop: "C02", msg: f.msg.clone() });
+                        // on the line of the panic itself it is also the accounting of the operation that unwound
+                        if o.injected.is_some() {
+                            match &line.op {
+                                Op::On { op: OpKind::MutSet { .. } | OpKind::MutRep { .. }, .. } => kept.push(monitors::Fail { prop: "C11", msg: f.msg.clone() }),
+                                Op::On { op: OpKind::RetainIdx(_) | OpKind::RetainIds(_), .. } => kept.push(monitors::Fail { prop: "C15", msg: f.msg.clone() }),
+                                _ => {}
+                            }
+                        }
                         kept.push(monitors::Fail { prop: "C16", msg: f.msg });
                     }
+                    "C06" if f.msg.contains("aborted by a panic") => { kept.push(monitors::Fail { prop: "C06", msg: f.msg.clone() }); kept.push(monitors::Fail { prop: "C16", msg: f.msg }); }
                     _ => {}
                 }
             }
@@ -824,6 +833,61 @@ fn clustered(sink: &mut Sink, rng: &mut Rng, shard: (u64, u64)) {
     }
 }
 
+/// Replacing an entry that sits deep in a probe sequence (every key collides, or clusters) with one so large
+/// that all other entries are evicted by the same call — then the map must still find it. Also: removing
+/// everything but one deep entry, then re-inserting / looking up.
+fn deep_replace(sink: &mut Sink, rng: &mut Rng, shard: (u64, u64)) {
+    let ovh = sink.ovh;
+    let mut idx = 0u64;
+    for hk in [HKind::Const, HKind::Mod4, HKind::Ident] {
+        for n in [17usize, 20, 29, 33, 40, 57] {
+            for victim in [n - 1, n / 2, 16, 0] {
+                for mode in 0..3 {
+                    idx += 1;
+                    if idx % shard.1 != shard.0 {
+                        continue;
+                    }
+                    let mut w = sink.begin_seq(hk, "deepreplace");
+                    let max = ovh * (n + 2) + 50;
+                    let cap = if mode == 2 { Some(n) } else { None };
+                    sink.step(&mut w, &gen::mk_line(true, Op::New { c: 0, max, cap }));
+                    // identity hasher: ids that share a home bucket modulo every table size up to 128
+                    let id_of = |i: usize| -> u32 { if hk == HKind::Ident { (i * 128) as u32 } else { i as u32 } };
+                    for i in 0..n {
+                        let kt = types::peek_next_tok();
+                        sink.step(&mut w, &gen::mk_line(false, Op::On { c: 0, op: OpKind::Ins { id: id_of(i), kh: 0, kt, vh: 0, vt: kt + 1 } }));
+                    }
+                    let v = id_of(victim);
+                    let kt = types::peek_next_tok();
+                    match mode {
+                        // replace it by an entry that fills the cache: every other entry is evicted in the same call
+                        0 | 2 => sink.step(&mut w, &gen::mk_line(true, Op::On { c: 0, op: OpKind::Ins { id: v, kh: 0, kt, vh: max - ovh, vt: kt + 1 } })),
+                        // lower the limit so that only the youngest stay, then replace one of them
+                        _ => {
+                            sink.step(&mut w, &gen::mk_line(true, Op::On { c: 0, op: OpKind::Touch(v) }));
+                            sink.step(&mut w, &gen::mk_line(true, Op::On { c: 0, op: OpKind::SetMax(ovh + 10) }));
+                            sink.step(&mut w, &gen::mk_line(true, Op::On { c: 0, op: OpKind::Ins { id: v, kh: 0, kt, vh: 3, vt: kt + 1 } }))
+                        }
+                    };
+                    for op in [OpKind::Has(v), OpKind::Peek(v), OpKind::Get(v)] {
+                        sink.step(&mut w, &gen::mk_line(true, Op::On { c: 0, op }));
+                    }
+                    let kt = types::peek_next_tok();
+                    sink.step(&mut w, &gen::mk_line(true, Op::On { c: 0, op: OpKind::Ins { id: v, kh: 0, kt, vh: 1, vt: kt + 1 } }));
+                    sink.step(&mut w, &gen::mk_line(true, Op::On { c: 0, op: OpKind::SetMax(max) }));
+                    for _ in 0..6 {
+                        let id = id_of(rng.below(n as u64 + 2) as usize);
+                        let kt = types::peek_next_tok();
+                        let op = match rng.below(4) { 0 => OpKind::Ins { id, kh: 0, kt, vh: 2, vt: kt + 1 }, 1 => OpKind::Rm(id), 2 => OpKind::Get(id), _ => OpKind::TIns { id, kh: 0, kt, vh: 0, vt: kt + 1 } };
+                        sink.step(&mut w, &gen::mk_line(true, Op::On { c: 0, op }));
+                    }
+                    sink.end_seq(w);
+                }
+            }
+        }
+    }
+}
+
 /// Systematic panic injection: for a set of small states, every operation, every callback kind and
 /// every index n up to the number of callbacks the operation makes without a panic.
 fn panic_systematic(sink: &mut Sink, rng: &mut Rng, shard: (u64, u64), rounds: usize) {
@@ -1084,6 +1148,7 @@ fn main() {
         "slide" => sliding_window(&mut sink, &mut rng, shard),
         "tomb" => tombstones(&mut sink, &mut rng, shard),
         "cluster" => clustered(&mut sink, &mut rng, shard),
+        "deepreplace" => deep_replace(&mut sink, &mut rng, shard),
         "panicx" => panic_systematic(&mut sink, &mut rng, shard, get("--rounds").and_then(|s| s.parse().ok()).unwrap_or(1)),
         "exh" => exhaustive(&mut sink, depth, shard),
         name => {
